@@ -231,6 +231,9 @@ def L(id_, file, func, keyword, nth, name, count=None):
 
 # group name -> list of rules.  A property's obligations name the groups their TU depends on.
 RULES = {
+ 'bp_small': [
+  {'id': 'bp_init_reader_count', 'file': 'src/urcu-bp.c', 'kind': 'regex', 'pattern': r'^#define INIT_READER_COUNT\s+8\s*$', 'repl': '#define INIT_READER_COUNT\t2', 'count': 1},
+ ],
  'callrcu': [
   # indirect callback invocation -> recorder (default definition: the call itself)
   {'id': 'helper_indirect_call', 'file': 'src/urcu-call-rcu-impl.h', 'kind': 'regex', 'pattern': r'^(\s*)rhp->func\(rhp\);\s*$', 'repl': r'\1URCU_VERIF_CB(rhp);', 'count': 1,
